@@ -36,9 +36,10 @@ const (
 	kBreaker
 	kThrottle
 	kRetry
+	kUser // a harness-written middleware that replaces the message context for the inner call (ctx-replace classes only)
 )
 
-var kindName = [...]string{"Timeout", "CorrelationID", "Recoverer", "IgnoreErrors", "InstantAck", "DelayOnError", "CircuitBreaker", "Throttle", "Retry"}
+var kindName = [...]string{"Timeout", "CorrelationID", "Recoverer", "IgnoreErrors", "InstantAck", "DelayOnError", "CircuitBreaker", "Throttle", "Retry", "UserMW"}
 
 type chainShape []kind // outermost first
 
@@ -108,6 +109,8 @@ type layer struct {
 	RInterval  time.Duration
 	RElapsed   time.Duration
 	RRand      float64
+	UAct       string // kUser: context action before the inner call (ctxActs, never "setback")
+	URestore   bool   // kUser: deferred msg.SetContext(<context seen on entry>) after the inner call
 }
 
 func (l layer) String() string {
@@ -124,6 +127,11 @@ func (l layer) String() string {
 		return fmt.Sprintf("IgnoreErrors(%s)", strings.Join(s, "|"))
 	case kRetry:
 		return fmt.Sprintf("Retry(max=%d,interval=%v,maxElapsed=%v,rand=%v)", l.MaxRetries, l.RInterval, l.RElapsed, l.RRand)
+	case kUser:
+		if l.URestore {
+			return fmt.Sprintf("UserMW(ctx=%s,restore)", l.UAct)
+		}
+		return fmt.Sprintf("UserMW(ctx=%s)", l.UAct)
 	}
 	return kindName[l.K]
 }
@@ -136,6 +144,7 @@ type step struct {
 	pv           any
 	pvDesc       string
 	runtimePanic bool
+	CtxAct       string // what the handler does to the message context before it returns / panics ("" = nothing)
 }
 
 func (s step) String() string {
@@ -149,6 +158,9 @@ func (s step) String() string {
 	if len(s.outs) > 0 {
 		d += fmt.Sprintf("+%dout", len(s.outs))
 	}
+	if s.CtxAct != "" {
+		d += "@ctx=" + s.CtxAct
+	}
 	return d
 }
 
@@ -161,6 +173,7 @@ type scenario struct {
 	preDelay time.Duration
 	ctxKind  int // 0 background, 1 with value, 2 with value and a far (2h) deadline
 	maxCalls int
+	ctxMode  bool // ctx-replace classes: handler steps and UserMW layers replace the message context
 }
 
 func (sc *scenario) shape() chainShape {
@@ -280,8 +293,8 @@ func genPanic(r *vlib.Rand, bases []error) (v any, desc string, rt bool) {
 	}
 }
 
-func genScenario(r *vlib.Rand, id string, shape chainShape) *scenario {
-	sc := &scenario{id: id}
+func genScenario(r *vlib.Rand, id string, shape chainShape, ctxMode bool) *scenario {
+	sc := &scenario{id: id, ctxMode: ctxMode}
 	bases := baseErrors()
 	// may the handler wait for the Timeout deadline? only when no Timeout sits outside a Retry
 	hasT, tOutsideRetry := false, false
@@ -295,7 +308,7 @@ func genScenario(r *vlib.Rand, id string, shape chainShape) *scenario {
 			}
 		}
 	}
-	sc.useWait = hasT && !tOutsideRetry && r.Chance(0.35)
+	sc.useWait = !ctxMode && hasT && !tOutsideRetry && r.Chance(0.35)
 	nRetry := 0
 	for _, k := range shape {
 		if k == kRetry {
@@ -338,6 +351,9 @@ func genScenario(r *vlib.Rand, id string, shape chainShape) *scenario {
 				l.RRand = 0.5
 			}
 			sc.maxCalls *= l.MaxRetries + 1
+		case kUser:
+			l.UAct = userActs[r.Intn(len(userActs))]
+			l.URestore = r.Chance(0.35)
 		}
 		sc.chain = append(sc.chain, l)
 	}
@@ -386,6 +402,9 @@ func genScenario(r *vlib.Rand, id string, shape chainShape) *scenario {
 			st.Kind = "panic"
 			st.pv, st.pvDesc, st.runtimePanic = genPanic(r, bases)
 		}
+		if ctxMode && !r.Chance(0.12) {
+			st.CtxAct = handlerActs[r.Intn(len(handlerActs))]
+		}
 		sc.script = append(sc.script, st)
 	}
 	if r.Chance(0.75) {
@@ -433,10 +452,20 @@ type model struct {
 	corr      map[*message.Message]string
 	ackAtCall []bool
 	eff       map[string]int
+
+	// symbolic message context (ctxrepl.go)
+	callerCtx *sctx
+	ctx       *sctx
+	nextSeq   int
+	ambiguous bool    // from here on the statement only demands "not cancelled" (see kTimeout in eval)
+	ctxAtCall []*sctx // expected lineage of msg.Context() at the start of each handler call; nil = no demand
+	ctxEff    map[string]int
 }
 
 func newModel(sc *scenario) *model {
-	m := &model{sc: sc, corr: map[*message.Message]string{}, eff: map[string]int{}}
+	m := &model{sc: sc, corr: map[*message.Message]string{}, eff: map[string]int{}, ctxEff: map[string]int{}}
+	m.callerCtx = &sctx{kind: "caller", seq: -1}
+	m.ctx = m.callerCtx
 	for _, st := range sc.script {
 		for _, o := range st.outs {
 			m.corr[o] = o.Metadata.Get(middleware.CorrelationIDMetadataKey)
@@ -456,6 +485,12 @@ func (m *model) handler() mOut {
 	}
 	st := &m.sc.script[idx]
 	m.ackAtCall = append(m.ackAtCall, m.acked)
+	if m.ambiguous {
+		m.ctxAtCall = append(m.ctxAtCall, nil)
+	} else {
+		m.ctxAtCall = append(m.ctxAtCall, m.ctx)
+	}
+	m.ctx = m.applyAct(st.CtxAct, m.ctx)
 	switch st.Kind {
 	case "panic":
 		return mOut{panicked: true, pst: st}
@@ -474,7 +509,32 @@ func (m *model) eval(i int) mOut {
 	case kTimeout:
 		// documented effect: a deadline visible during the call (judged per handler call); nothing else
 		m.eff["deadline_seen"]++
-		return m.eval(i + 1)
+		saved := m.ctx
+		node := &sctx{parent: saved, kind: "timeout", seq: -1, tmo: l.Timeout}
+		m.ctx = node
+		o := m.eval(i + 1)
+		if !m.ctx.descendsFrom(node) {
+			// The inner code left a context of its own on the message that does not stem from the timeout
+			// context. The statement demands that the message context "is not left cancelled"; whether
+			// Timeout puts the caller's context back (what it does) or leaves the handler's own, live one
+			// in place is not specified. From here on only "not cancelled / no Timeout deadline left" and
+			// Retry's attempt count are judged.
+			m.ambiguous = true
+			m.ctxEff["ctx_unrelated_left_under_timeout"]++
+		} else if m.ctx != node {
+			m.ctxEff["ctx_derived_left_under_timeout"]++
+		}
+		m.ctx = saved
+		return o
+	case kUser:
+		seen := m.ctx
+		m.ctxEff["ctx_user_mw"]++
+		m.ctx = m.applyAct(l.UAct, seen)
+		o := m.eval(i + 1)
+		if l.URestore {
+			m.ctx = seen
+		}
+		return o
 	case kBreaker:
 		m.eff["breaker_pass"]++
 		return m.eval(i + 1)
@@ -566,6 +626,7 @@ type callObs struct {
 	doneAt      time.Time
 	errAfter    error
 	end         time.Time
+	ctx         context.Context // msg.Context() at the start of the call
 }
 
 type ctxKeyT struct{}
@@ -582,6 +643,9 @@ type realRun struct {
 	panicked bool
 	pv       any
 	tStart   time.Time
+
+	made    []madeCtx // contexts installed by the handler / UserMW layers, in creation order
+	cancels []func()
 }
 
 func stopThrottle(t *middleware.Throttle) {
@@ -633,6 +697,8 @@ func (sc *scenario) build(h message.HandlerFunc, rr *realRun) (message.HandlerFu
 					rr.mu.Unlock()
 				}}
 			h = rt.Middleware(h)
+		case kUser:
+			h = userMW(l, rr, h)
 		}
 	}
 	return h, func() {
@@ -699,6 +765,9 @@ type runStats struct {
 	calls   int
 	result  string
 	eff     map[string]int
+	ctxEff  map[string]int
+
+	ambiguous bool
 }
 
 // runScenario executes the real chain once and judges it against the model.
@@ -752,6 +821,7 @@ func runScenario(res *vlib.Result, sc *scenario) runStats {
 		st := &sc.script[idx]
 		var o callObs
 		ctx := msg.Context()
+		o.ctx = ctx
 		o.tIn = time.Now()
 		o.dl, o.hasDL = ctx.Deadline()
 		o.acked = vlib.IsClosed(msg.Acked())
@@ -770,6 +840,7 @@ func runScenario(res *vlib.Result, sc *scenario) runStats {
 		rr.mu.Lock()
 		rr.obs = append(rr.obs, o)
 		rr.mu.Unlock()
+		rr.applyAct(st.CtxAct, msg)
 		if st.Kind == "panic" {
 			if st.runtimePanic {
 				nilMapPanic()
@@ -806,8 +877,14 @@ func runScenario(res *vlib.Result, sc *scenario) runStats {
 	oc, dump := vlib.WaitClosed(done, opts)
 	rr.mu.Lock()
 	defer rr.mu.Unlock()
+	defer func() {
+		// the contexts the handler / UserMW layers installed stay live until the run has been judged
+		for _, c := range rr.cancels {
+			c()
+		}
+	}()
 
-	stats := runStats{eff: m.eff, calls: rr.calls}
+	stats := runStats{eff: m.eff, ctxEff: m.ctxEff, calls: rr.calls}
 	for _, n := range m.eff {
 		stats.effects += n
 	}
@@ -834,6 +911,7 @@ func runScenario(res *vlib.Result, sc *scenario) runStats {
 	}
 	shape := sc.shape()
 	hasT, hasRetry := shape.has(kTimeout), shape.has(kRetry)
+	stats.ambiguous = m.ambiguous
 
 	// 1. handler call count (Retry's attempt count)
 	if rr.calls != m.calls {
@@ -915,22 +993,41 @@ func runScenario(res *vlib.Result, sc *scenario) runStats {
 		fail(afterClause, "after the chain returned, msg.Context().Err() = %v (the context given to the chain was live)", err)
 		return stats
 	}
-	if dl, ok := after.Deadline(); ok != parentHasDL || (ok && !dl.Equal(parentDL)) {
-		fail(afterClause, "after the chain returned, msg.Context() has deadline (%v,%v); the context given to the chain had (%v,%v)", dl, ok, parentDL, parentHasDL)
-		return stats
-	}
-	if sc.ctxKind != 0 && after.Value(ctxKeyT{}) != ctxVal {
-		fail(afterClause, "after the chain returned, msg.Context() lost the caller's context value")
-		return stats
+	if dl, ok := after.Deadline(); m.ambiguous {
+		// the handler / a user middleware left an unrelated context of its own under a Timeout: nothing is
+		// demanded beyond "not cancelled" and "the Timeout's deadline is not left behind" (every other
+		// deadline in the game is the caller's or one the harness requested itself)
+		known := !ok || (parentHasDL && dl.Equal(parentDL))
+		for _, mc := range rr.made {
+			known = known || (!mc.ownDL.IsZero() && dl.Equal(mc.ownDL))
+		}
+		if !known {
+			fail(afterClause, "after the chain returned, msg.Context() has deadline %v, which is neither the caller's (%v,%v) nor one the handler / user middleware installed", dl, parentDL, parentHasDL)
+			return stats
+		}
+	} else {
+		// m.ctx: the context the code inside the chain left on the message (the caller's own unless the
+		// handler / a user middleware outside every Timeout replaced it)
+		wdl, wok := expectedDeadline(m.ctx, rr, parentDL, parentHasDL)
+		if ok != wok || (ok && !dl.Equal(wdl)) {
+			fail(afterClause, "after the chain returned, msg.Context() has deadline (%v,%v); the context left on the message (%s) has (%v,%v)", dl, ok, m.ctx, wdl, wok)
+			return stats
+		}
+		if m.ctx.root().kind == "caller" && sc.ctxKind != 0 && after.Value(ctxKeyT{}) != ctxVal {
+			fail(afterClause, "after the chain returned, msg.Context() lost the caller's context value (expected context %s)", m.ctx)
+			return stats
+		}
+		for _, seq := range m.ctx.madeSeqs() {
+			if after.Value(markKey{seq}) != seq {
+				fail(afterClause, "after the chain returned, msg.Context() lost the value of context #%d that the handler / user middleware had installed (expected context %s)", seq, m.ctx)
+				return stats
+			}
+		}
 	}
 	// 6. per handler call: ack-at-start, deadline inside the call
-	dmin := time.Duration(0)
 	allTInsideRetry := true
 	for i, l := range sc.chain {
 		if l.K == kTimeout {
-			if dmin == 0 || l.Timeout < dmin {
-				dmin = l.Timeout
-			}
 			for _, l2 := range sc.chain[i+1:] {
 				if l2.K == kRetry {
 					allTInsideRetry = false
@@ -948,12 +1045,27 @@ func runScenario(res *vlib.Result, sc *scenario) runStats {
 			fail("ack-transparency", "handler call %d started with the message already acked although no InstantAck is in the chain", i)
 			return stats
 		}
-		if !o.valOK {
-			fail("ctx-transparency", "handler call %d: the caller's context value is not visible through msg.Context()", i)
+		// exp: the lineage msg.Context() has at the start of this call (caller's context, the Timeout
+		// layers above, whatever the handler / user middlewares installed before); nil = no demand
+		var exp *sctx
+		if i < len(m.ctxAtCall) {
+			exp = m.ctxAtCall[i]
+		}
+		if exp == nil {
+			continue
+		}
+		if exp.root().kind == "caller" && !o.valOK {
+			fail("ctx-transparency", "handler call %d: the caller's context value is not visible through msg.Context() (expected context %s)", i, exp)
 			return stats
 		}
+		for _, seq := range exp.madeSeqs() {
+			if o.ctx.Value(markKey{seq}) != seq {
+				fail("ctx-transparency", "handler call %d: the value of context #%d installed earlier by the handler / user middleware is not visible through msg.Context() (expected context %s)", i, seq, exp)
+				return stats
+			}
+		}
 		st := &sc.script[i]
-		if hasT {
+		if dmin, underT := exp.minTimeout(); underT {
 			tb := rr.tStart
 			if allTInsideRetry && i > 0 {
 				tb = rr.obs[i-1].end
@@ -980,8 +1092,8 @@ func runScenario(res *vlib.Result, sc *scenario) runStats {
 					return stats
 				}
 			}
-		} else if o.hasDL != parentHasDL || (o.hasDL && !o.dl.Equal(parentDL)) {
-			fail("ctx-transparency", "handler call %d: deadline (%v,%v) differs from the caller's (%v,%v) although no Timeout is in the chain", i, o.dl, o.hasDL, parentDL, parentHasDL)
+		} else if wdl, wok := expectedDeadline(exp, rr, parentDL, parentHasDL); o.hasDL != wok || (o.hasDL && !o.dl.Equal(wdl)) {
+			fail("ctx-transparency", "handler call %d: deadline (%v,%v) differs from (%v,%v) of the context %s although no Timeout is between that context and the handler", i, o.dl, o.hasDL, wdl, wok, exp)
 			return stats
 		}
 	}
@@ -1080,19 +1192,27 @@ func runScenario(res *vlib.Result, sc *scenario) runStats {
 // case runners for the chain classes
 
 func runChains(e *vlib.Env, class string, shapes []chainShape, scriptsPer int) vlib.Result {
+	return runChainsMode(e, class, shapes, scriptsPer, false)
+}
+
+func runChainsMode(e *vlib.Env, class string, shapes []chainShape, scriptsPer int, ctxMode bool) vlib.Result {
 	res := vlib.Result{Class: class}
+	ctxTotal := map[string]int{}
 	var sigParts []any
 	var samples []map[string]any
 	effTotal := map[string]int{}
 	n := 0
 	for ci, shape := range shapes {
 		for s := 0; s < scriptsPer; s++ {
-			sc := genScenario(e.R, fmt.Sprintf("%s.%d.%d", e.ID(), ci, s), shape)
+			sc := genScenario(e.R, fmt.Sprintf("%s.%d.%d", e.ID(), ci, s), shape, ctxMode)
 			st := runScenario(&res, sc)
 			n++
 			res.Events += st.events
 			for k, v := range st.eff {
 				effTotal[k] += v
+			}
+			for k, v := range st.ctxEff {
+				ctxTotal[k] += v
 			}
 			if len(samples) < 3 || res.Failed() {
 				samples = append(samples, map[string]any{"chain": sc.chainStr(), "script": sc.scriptStr(), "handler_calls": st.calls, "result": st.result})
@@ -1111,8 +1231,17 @@ func runChains(e *vlib.Env, class string, shapes []chainShape, scriptsPer int) v
 		res.Count("effect_"+k, v)
 		eff += v
 	}
+	ctxN := 0
+	for k, v := range ctxTotal {
+		res.Count(k, v)
+		ctxN += v
+	}
 	res.Count("chain_runs", n)
 	res.NonTrivial = eff > 0
+	if ctxMode {
+		// ctx-replace classes: at least one context replacement was made inside at least one middleware
+		res.NonTrivial = eff > 0 && ctxN > 0
+	}
 	res.Sig = vlib.Sig(sigParts...)
 	res.Sample = samples
 	return res
